@@ -21,6 +21,18 @@ func respell(s string, rng *rand.Rand, mode int) string {
 		switch {
 		case !ok:
 			b.WriteRune(r)
+		case mode == 3:
+			// letters that have a second upper-case form of a different byte length
+			switch r {
+			case 'k':
+				b.WriteRune('\u212a') // Kelvin sign
+			case 'å':
+				b.WriteRune('\u212b') // Angstrom sign
+			case 'ω':
+				b.WriteRune('\u2126') // Ohm sign
+			default:
+				b.WriteRune(r)
+			}
 		case mode == 0, mode == 1 && b.Len() == 0, mode == 2 && rng.Intn(2) == 0:
 			b.WriteRune(u)
 		default:
@@ -49,7 +61,7 @@ func init() {
 	// C20 (bounded): the assumed case lemmas of the library (normalisers commute with case, the
 	// fuzzy matcher folds) and the whitespace clause, checked end to end on the real code.
 	suites["C20-case-ws"] = func() result {
-		r := result{Name: "C20-case-ws", Bound: "real SearchUniversal / cached search / ProcessQuery / TF-IDF / ValidateQuery on a 14-command database: 60 base queries (1..6 words from a 34-word vocabulary with ASCII, accented, Greek, Cyrillic, digits, punctuation, typos) x 3 case re-spellings (upper, title, seeded random) x 6 option sets (NLP, fuzzy, pipeline, limit); whitespace: 60 queries x 9 paddings (spaces, tabs, newlines, CR next to blanks, leading / trailing / repeated) through ValidateQuery"}
+		r := result{Name: "C20-case-ws", Bound: "real SearchUniversal / cached search / ProcessQuery / TF-IDF / ValidateQuery on a 14-command database: 60 base queries (1..6 words from a 34-word vocabulary with ASCII, accented, Greek, Cyrillic, digits, punctuation, typos) x 4 case re-spellings (upper, title, seeded random, Kelvin / Angstrom / Ohm signs for k / å / ω) x 6 option sets (NLP, fuzzy, pipeline, limit); whitespace: 60 queries x 11 paddings (spaces, tabs, newlines, CR next to blanks, no-break / em / ideographic spaces, leading / trailing / repeated) through ValidateQuery"}
 		var bad []string
 		fail := func(f string, a ...interface{}) {
 			if len(bad) < 5 {
@@ -101,7 +113,7 @@ func init() {
 		}
 		proc := nlp.NewQueryProcessor()
 		for _, q := range queries {
-			for mode := 0; mode < 3; mode++ {
+			for mode := 0; mode < 4; mode++ {
 				q2 := respell(q, rng, mode)
 				if q2 == q {
 					continue
@@ -150,6 +162,8 @@ func init() {
 			func(s string) string { return strings.ReplaceAll(s, " ", " \r") },
 			func(s string) string { return "\r\n " + strings.ReplaceAll(s, " ", "\n") + " \r\n" },
 			func(s string) string { return "\t\t" + strings.ReplaceAll(s, " ", "\t") + "\v" },
+			func(s string) string { return strings.ReplaceAll(s, " ", " \u00a0") },                  // no-break space
+			func(s string) string { return "\u3000" + strings.ReplaceAll(s, " ", "\u2003\u2003") + "\u2028" }, // ideographic, em space, line separator
 		}
 		for _, q := range queries {
 			base, err := validation.ValidateQuery(q)
